@@ -339,7 +339,9 @@ def shard_cubes(spec, R):
             labels3 = [f"s{int(g)}" for g in g3]
             case3 = {"cube": cube3, "nodata": nodata, "groups": g3, "kinds": kinds, "dtype": dtype, "wiped": {f"{k[0]},{k[1]}": list(v) for k, v in wiped.items()}}
             try:
-                out3 = da3.hdc.algo.spi(groups=labels3).values
+                kw3 = [{}, {"dtype": "float32"}, {"dtype": "int32"}, {}][int(rng.integers(0, 4))]  # the output dtype must reach nothing but the output
+                R.count(f"grouped_output_dtype_{kw3.get('dtype', 'default')}")
+                out3 = da3.hdc.algo.spi(groups=labels3, **kw3).values
             except Exception as e:
                 out3 = None
                 R.violation("C08:raises", f"grouped SPI raises {type(e).__name__} when a whole group of a pixel is {sorted(set(v[1] for v in wiped.values()))}: {str(e)[:100]}", case3)
